@@ -21,6 +21,7 @@ import (
 //   C <conn> <hex> ...    command (argv hex-encoded; "-" is the empty string)
 //   X <conn> <hexraw>     raw message bytes
 //   P <db> <hexkey> <value> <deadline-ms>   store a value directly (canonical value text)
+//   D <db>                the embedded caller selects a database (API call SelectDB)
 //   A <ms>                advance the virtual clock
 //   W <db>                one synchronous round of the expiry sampler
 //   G                     digest
@@ -176,6 +177,9 @@ func main() {
 					fmt.Fprintf(out, "P -\n")
 					out.Flush()
 				}
+			case "D":
+				dbi, _ := strconv.Atoi(f[1])
+				_ = in.db.SelectDB(dbi)
 			case "A":
 				ms, _ := strconv.ParseInt(f[1], 10, 64)
 				in.clk.Advance(time.Duration(ms) * time.Millisecond)
